@@ -56,8 +56,10 @@ fn observe(reader: &Connection, fx: &Fixture) -> Option<(String, String)> {
         return None;
     }
     let d = mc_core::catch(|| digest(reader, false));
-    let s = summary_of(reader, fx);
     let _ = reader.execute_batch("ROLLBACK");
+    // get_wallet_summary opens its own read transaction (it cannot run inside ours); the writer is
+    // paused inside its progress handler meanwhile, so both reads see the same instant.
+    let s = summary_of(reader, fx);
     match (d, s) {
         (Ok(d), Ok(s)) => Some((d, s)),
         _ => None,
